@@ -80,32 +80,37 @@ def BNode.lastKey? : BNode K V → Option K
   | .leaf es => es.getLast?.map Prod.fst
   | .inner .. => none
 
+/-- "if the last key of the leaf was changed, the parent is notified": the pair
+(`parent->slotkey[parentslot] = lastkey`, `btree_update_lastkey` with `lastkey`); `none` when the C++ reads
+`leaf->key(leaf->slotuse - 1)` of an empty leaf -/
+def leafReport (sepAbove : Bool) (erasedLast : Bool) (lastK : Option K) : Option (Option K × Option K) :=
+  if erasedLast then
+    if sepAbove then
+      match lastK with
+      | some k => some (some k, none)
+      | none => none
+    else some (none, lastK)
+  else some (none, none)
+
+/-- the underflow handling of a leaf after the entry was removed -/
+def finishLeaf (p : Params K) (es' : List (K × V)) (ctx : Ctx K V) (setSep lastUp : Option K) : Option (EraseOut K V) :=
+  let isRoot := ctx.par.isNone
+  if es'.length < p.leafMin && !(isRoot && es'.length ≥ 1) then
+    if ctx.left.isNone && ctx.right.isNone then
+      if isRoot then some { node := .leaf es', rootDrop := true, leafFree := 1 }
+      else none                                    -- would free root_ while curr is not the root
+    else
+      match decideFix p.leafMin (ctx.left.map BNode.slotuse) (ctx.right.map BNode.slotuse) ctx.lp ctx.rp ctx.par with
+      | none => none
+      | some f => some { node := .leaf es', setSep := setSep, lastUp := lastUp, fix := f }
+  else some { node := .leaf es', setSep := setSep, lastUp := lastUp }
+
 /-- the leaf part of erase_one_descend / erase_iter_descend once the slot is known -/
 def eraseInLeaf (p : Params K) (es : List (K × V)) (slot : Nat) (ctx : Ctx K V) : Option (EraseOut K V) :=
   let es' := es.eraseIdx slot
-  let lastK := es'.getLast?.map Prod.fst
-  -- if the last key of the leaf was changed, the parent is notified
-  let upd : Option (Option K × Option K) :=
-    if slot = es'.length then
-      if ctx.sepAbove then
-        match lastK with
-        | some k => some (some k, none)
-        | none => none                               -- leaf->key(leaf->slotuse - 1) with slotuse = 0
-      else some (none, lastK)
-    else some (none, none)
-  match upd with
+  match leafReport ctx.sepAbove (slot == es'.length) (es'.getLast?.map Prod.fst) with
   | none => none
-  | some (setSep, lastUp) =>
-    let isRoot := ctx.par.isNone
-    if es'.length < p.leafMin && !(isRoot && es'.length ≥ 1) then
-      if ctx.left.isNone && ctx.right.isNone then
-        if isRoot then some { node := .leaf es', rootDrop := true, leafFree := 1 }
-        else none                                    -- would free root_ while curr is not the root
-      else
-        match decideFix p.leafMin (ctx.left.map BNode.slotuse) (ctx.right.map BNode.slotuse) ctx.lp ctx.rp ctx.par with
-        | none => none
-        | some f => some { node := .leaf es', setSep := setSep, lastUp := lastUp, fix := f }
-    else some { node := .leaf es', setSep := setSep, lastUp := lastUp }
+  | some (setSep, lastUp) => finishLeaf p es' ctx setSep lastUp
 
 /-- the `while (slot <= inner->slotuse)` search loop of erase_iter_descend; for erase_one it runs once -/
 def scanLoop {α : Type} (visit : Nat → Option (Option α)) (stopAfter : Nat → Bool) : Nat → Nat → Option (Option (Nat × α))
